@@ -240,7 +240,11 @@ BLOCK_CASES = [
  ("two blocks, fully_diagonalize=[0]: only one of them listed", [0]),
  ("two blocks, fully_diagonalize={0: a + a^dagger}: one block masked, the other untouched", {0: [1, -1]}),
  ("two blocks, fully_diagonalize=[0, 1]", [0, 1]),
+ ("two blocks, fully_diagonalize={0: a^2 + a^dagger^2}: the two-photon terms eliminated, the linear drive kept (kept terms generate eliminated ones)", {0: [2, -2]}),
+ ("two blocks, a complex number-conserving coupling i N / 2 between them", None, "complex"),
+ ("two blocks, a complex number-conserving coupling i N / 2 between them, fully_diagonalize=[0, 1]", [0, 1], "complex"),
 ]
+BLOCK_V_COMPLEX = lambda d: sympy.Matrix([[d['a'] + Dagger(d['a']), sympy.I * Q(1, 2) * Dagger(d['a']) * d['a']], [-sympy.I * Q(1, 2) * Dagger(d['a']) * d['a'], -(d['a'] + Dagger(d['a']))]])
 BLOCK_H0 = lambda d: sympy.Matrix([[2 * Dagger(d['a']) * d['a'], 0], [0, 2 * Dagger(d['a']) * d['a'] + Q(7, 3)]])
 BLOCK_V = lambda d: sympy.Matrix([[d['a'] + Dagger(d['a']) + Q(1, 2) * (d['a'] ** 2 + Dagger(d['a']) ** 2), 1 + Dagger(d['a'])], [1 + d['a'], Q(1, 3) * (d['a'] + Dagger(d['a']))]])
 
@@ -319,10 +323,10 @@ def main(seed, ncases, driver, out, mode="all"):
         except Exception as e:
             failures.append({"system": label, "kind": "implementation-raises", "error": type(e).__name__ + ": " + str(e)[:150]})
     if mode == "all":
-        for label, fd in BLOCK_CASES:
-            dist["blocks: " + label.split(",")[1].split(":")[0].strip() if "," in label else label] = 1
+        for label, fd, *which in BLOCK_CASES:
+            dist["blocks: " + label] = 1
             try:
-                for (n, eh, eu, nlow) in run_blocks([('b', 'a')], BLOCK_H0, BLOCK_V, [0, 1], fd):
+                for (n, eh, eu, nlow) in run_blocks([('b', 'a')], BLOCK_H0, BLOCK_V_COMPLEX if which else BLOCK_V, [0, 1], fd):
                     evals += 2 * nlow * nlow; worst = max(worst, eh, eu)
                     if eh > 1e-8 or eu > 1e-8: failures.append({"system": label, "kind": "differs-from-fock-matrices", "order": n, "H_tilde_err": eh, "U_err": eu})
                 distinct += 1
